@@ -192,6 +192,13 @@ def compare_eval(rec: Dict[str, Any], tbl: "DocTable", *, styles: Sequence[int],
     for si in styles:
         text = untext(rec["texts"][si])
         try:
+            if env is None:
+                # an environment with other decoding options reads the same text first: what a literal in the text means
+                # belongs to the environment that compiles it
+                try:
+                    jsonpath.JSONPathEnvironment(unicode_escape=False, well_typed=False).compile(text)
+                except Exception:  # noqa: BLE001
+                    pass
             path = (env or jsonpath).compile(text)
         except BaseException as ex:  # noqa: BLE001
             return [(f"compile-raised-{exc_family(ex)}|{'+'.join(sorted(expr_features(rec['q'])))}",
